@@ -105,7 +105,7 @@ def c13(tier, seed):
         xml_big = xml_lines.replace('<groups>', pad + '<groups>', 1)
         with open(os.path.join(d, 'xbig.orthoxml'), 'w') as f: f.write(xml_big)
         configs = []
-        for tree_kind in ('newick_string', 'newick', 'newick_noint') + (('phyloxml',) if D.T[0] != '' else ()):
+        for tree_kind in ('newick_string', 'newick', 'newick_noint') + (('phyloxml',) if D.T[0] != '' and not D.meta.get('no_phyloxml') else ()):
             for naming in ('own', 'synth'):
                 if tree_kind == 'newick_noint' and naming == 'own':
                     continue
@@ -957,13 +957,18 @@ def c18(tier, seed):
                             bad.append('PhyloXML route: get_newick_from_tree(%s) = %r, expected %r' % (taxS(p_), got_, want_))
             except Exception as e:      # noqa
                 bad.append('PhyloXML route raised %s: %s' % (type(e).__name__, e))
-            # ... and the taxonomy of an ANALYSIS built on that file still is this tree after read-only reporting calls
-            # (per-family profiles re-read the PhyloXML file; r9-C18a: a cached parse handed out instead of a copy)
+            pass
+        if k % 4 in (0, 2) and all(gen.display_name(T, p_, naming) for p_ in gen.paths(T)):
+            # ... and the taxonomy of an ANALYSIS built on that tree (PhyloXML file / Newick text) still is this tree after
+            # read-only reporting calls (per-family profiles, the ASCII drawing): names, depths, child order, stored text
+            # (r9-C18a, r11-C18a, r11-C18b)
             names_ = [gen.display_name(T, p_, naming) for p_ in gen.paths(T)]
             if not gen.has_unary(T) and len(names_) >= 4 and len(set(names_)) == len(names_):      # (a species named like a clade cannot be declared)
                 try:
                     Dh = gen.make_dataset(ex.rng, T=T, naming=naming, nfam=3, P=dict(species_split=0.0, dbsplit=0.0, late_species=0.0, latin1=0.0, unnamed_root=0.0))
-                    hh = core.load_py(Dh, phyloxml_dir=ex.tmp)
+                    hh = core.load_py(Dh, **(dict(phyloxml_dir=ex.tmp) if k % 4 == 0 else {}))
+                    str0_ = hh.taxonomy.tree_str
+                    hh.get_ascii_taxonomy()
                     subs_ = [x for t_ in hh.get_list_top_level_hogs() for x in all_nodes(t_) if isinstance(x, ag.HOG) and x.genome.taxon.up is not None]
                     for x in ex.rng.sample(subs_, min(3, len(subs_))):
                         hh.create_tree_profile(hog=x)
@@ -978,6 +983,8 @@ def c18(tier, seed):
                         bad.append('after tree profiles the species tree of the analysis has %d nodes, the input tree %d' % (seen_, len(list(gen.paths(T)))))
                     if hh.taxonomy.get_newick_from_tree(hh.taxonomy.tree) != gen.newick_named(T, (), naming) + ';':
                         bad.append('after tree profiles: Newick of the root is %r' % hh.taxonomy.get_newick_from_tree(hh.taxonomy.tree))
+                    if hh.taxonomy.tree_str != str0_:
+                        bad.append('the stored tree text changed during read-only calls: %r -> %r' % (str0_[:80], hh.taxonomy.tree_str[:80]))
                 except Exception as e:      # noqa
                     bad.append('analysis on the PhyloXML tree + profiles raised %s: %s' % (type(e).__name__, e))
         # the stored Newick re-parses to the same named topology
@@ -1136,7 +1143,16 @@ def c17(tier, seed):
             try:
                 if kind == 'v':
                     m = h.compare_genomes_vertically(gs[op[2]], gs[op[3]])
-                    return 'vmap ' + ob.vmapS(m) + ' nd=%s' % m.get_number_duplications()
+                    out_ = 'vmap ' + ob.vmapS(m) + ' nd=%s' % m.get_number_duplications()
+                    # what a caller does with the dictionaries it was handed: subscript look-ups of every ancestral gene
+                    # (KeyError for the ones that are not keys) -- a read leaves the comparison as it is (r11-C17a / C09a)
+                    for d_ in (m.get_duplicated(), m.get_retained()):
+                        for x_ in list(m.ancestor.genes):
+                            try:
+                                d_[x_]
+                            except KeyError:
+                                pass
+                    return out_
                 if kind == 'l':
                     lm = h.compare_genomes_lateral(gs[op[2]], gs[op[3]])
                     lm.get_lost(); lm.get_gained(); lm.get_retained(); lm.get_duplicated()
@@ -1159,7 +1175,8 @@ def c17(tier, seed):
                     root = etree.fromstring(vis.orthoxml.get_orthoxml_str().encode())
                     ns = '{http://orthoXML.org/2011/}'
                     sp = sorted(x.get('name') + ':' + ','.join(sorted(g.get('id') for g in x.iter(ns + 'gene'))) for x in root.findall(ns + 'species'))
-                    return 'iham ' + vis.famdata + vis.newick_str + ' '.join(sorted(ob.xml_struct(c) for c in root.find(ns + 'groups'))) + ';'.join(sp)
+                    pgatt = sorted(str(sorted(x_.attrib.items())) for x_ in root.iter(ns + 'paralogGroup'))      # (labels written on paralogGroups)
+                    return 'iham ' + vis.famdata + vis.newick_str + ' '.join(sorted(ob.xml_struct(c) for c in root.find(ns + 'groups'))) + ';'.join(sp) + str(pgatt)
                 if kind == 'nav':
                     x = byk[op[2]]
                     return 'nav ' + ','.join(sorted(g.unique_id for g in x.get_all_descendant_genes())) + '|' + ob.keysS(x.get_all_descendant_hogs())
